@@ -42,7 +42,14 @@ ovars == <<sInfl, sReq, twins, maxLive, answers, tnow>>
 tvars == <<vars, l, done, cs, lost, lead, jobOf, ovars, cerr>>
 
 Rec == TraceLog[l]
-NoCase == [id |-> 0, k |-> 0, c |-> 0, t0 |-> 0, traced |-> FALSE, questions |-> <<>>, asks |-> <<>>]
+NoCase == [id |-> 0, k |-> 0, c |-> 0, t0 |-> 0, traced |-> FALSE, questions |-> <<>>, asks |-> <<>>, rl |-> 0, qcap |-> 0]
+
+\* model parameters of prometheus.go bound to the real client (binding only):
+\*   StartWorkers: queries = make(chan queryRequest, concurrency*10)
+QueueCapOf(c) == c * 10
+\*   processJob: prom.rateLimiter.Take() with ratelimit.New(rateLimit) (leaky bucket, slack 10): n requests need
+\*   at least (n - 1 - 10) / rateLimit seconds; lower bound in microseconds
+RateFloorUs(n, rl) == IF n <= 11 THEN 0 ELSE ((n - 11) * 1000000) \div rl
 
 TraceInit ==
   /\ ask = [c \in Callers |-> 1]
@@ -65,6 +72,8 @@ TraceInit ==
 -----------------------------------------------------------------------------
 TCase ==
   /\ l <= Len(TraceLog) /\ Rec.ev = "Case"
+  /\ IF Rec.qcap = 0 \/ Rec.qcap = QueueCapOf(Rec.c) THEN TRUE
+     ELSE PrintT(<<"DRIFT", Rec.id, ToJson([what |-> "queue capacity is not concurrency*10", qcap |-> Rec.qcap, c |-> Rec.c])>>)
   /\ cs' = Rec
   /\ ask' = [c \in Callers |-> IF c <= Len(Rec.asks) THEN Rec.asks[c] ELSE 1]
   /\ cpc' = [c \in Callers |-> "wantLock"]
@@ -260,8 +269,14 @@ JudgeAgree ==
     ELSE Viol("Agree", QKind(q), QShared(q), ToString(Cardinality(AnsAt(q, t))))
 JudgeHang == IF Rec.ok THEN TRUE ELSE Viol("Hang", "any", FALSE, ToString(Rec.returned))
 
+BindRate ==
+  IF cs.rl = 0 \/ Rec.span_us >= RateFloorUs(Rec.nreq, cs.rl) THEN TRUE
+  ELSE PrintT(<<"DRIFT", cs.id, ToJson([what |-> "requests arrived faster than rateLimit allows", rl |-> cs.rl, nreq |-> Rec.nreq,
+                                         span_us |-> Rec.span_us, floor_us |-> RateFloorUs(Rec.nreq, cs.rl)])>>)
+
 TEnd ==
   /\ l <= Len(TraceLog) /\ Rec.ev = "End"
+  /\ BindRate
   /\ JudgeNoTwin /\ JudgeBounded /\ JudgeOnce /\ JudgeAgree /\ JudgeHang
   /\ l' = l + 1 /\ UNCHANGED <<vars, done, cs, lost, lead, jobOf, ovars, cerr>>
 
